@@ -104,7 +104,7 @@ def helper_pass_edges(ctx, body, g):
     """success edges of `helper(..)?` sites whose helper returns Ok only through guard g -> ([(switch_bb, succ)], [helper names])"""
     F = body.F
     edges, names = [], []
-    for sb, ps, fs, cbb in body.try_guards(r""):
+    for sb, ps, fs, cbb in body.try_guards(r"^(?!.*(Try>?::branch|FromResidual.*::from_residual)$).+$"):
         callee = body.term(cbb)["f"]
         if callee not in F.fns or callee == body.name or F.fns[callee].kind == "Closure":
             continue
